@@ -216,20 +216,22 @@ theorem step_new (s : State) (op : Op) (j : Nat) (e' : Ent) (hj : s.ents.length 
   | copy src p =>
     simp only [step] at h
     split at h
-    · rename_i se pe hse hpe
-      split at h
+    · split at h
       · exact (absurd_same h).elim
       · right
-        refine ⟨src, se, (aliveAt_some hse).1, ?_⟩
         simp only at h
-        rcases Nat.lt_or_ge j (s.ents.length + 1) with hlt | hge
-        · have hje : j = s.ents.length := by omega
-          subst hje
-          simp at h
-          subst h
-          exact ⟨rfl, rfl⟩
-        · rw [List.getElem?_eq_none (by simp; omega)] at h
-          cases h
+        rw [List.getElem?_append_right hj] at h
+        have hmem : e' ∈ copies s.ents src p := List.mem_of_getElem? h
+        obtain ⟨x, hx, hxe⟩ := List.mem_map.mp hmem
+        have hx' : x ∈ s.ents.zipIdx := (List.mem_filter.mp hx).1
+        have hget : s.ents[x.2]? = some x.1 := by
+          have := List.mem_zipIdx hx'
+          simp only [Nat.zero_le, Nat.zero_add, Nat.sub_zero, true_and] at this
+          obtain ⟨hlt, heq⟩ := this
+          rw [List.getElem?_eq_getElem hlt, heq]
+        refine ⟨x.2, x.1, hget, ?_⟩
+        subst hxe
+        exact ⟨rfl, rfl⟩
     · exact (absurd_same h).elim
   | create k p inp =>
     simp only [step] at h
